@@ -1169,9 +1169,15 @@ func (g *G) addExtends(doc, svcs *Y, c *svcCtx, root string, density int) {
 	}
 	// local services extending
 	var local []string
+	var lastBase *baseRef // siblings: with probability 1/2 the next extending service takes the same base again
 	for i, name := range svcs.Keys {
 		s := svcs.Vals[i]
 		if !g.chance("svc-extends", 1, 2) {
+			local = append(local, name)
+			continue
+		}
+		if lastBase != nil && g.chance("ext-sibling", 1, 2) {
+			s.Set("extends", Map().Set("file", Str(relTo(root, lastBase.file))).Set("service", Str(lastBase.svc)))
 			local = append(local, name)
 			continue
 		}
@@ -1189,6 +1195,7 @@ func (g *G) addExtends(doc, svcs *Y, c *svcCtx, root string, density int) {
 			fallthrough
 		default:
 			b := bases[g.n("ext-base", len(bases))]
+			lastBase = &b
 			s.Set("extends", Map().Set("file", Str(relTo(root, b.file))).Set("service", Str(b.svc)))
 		}
 		local = append(local, name)
